@@ -96,6 +96,7 @@ def rule_wr_prop(cx, rep, port):
     """the verdict of every subwriter.write(..) is returned or tested with the false arm stopping the emitter"""
     p, mod, chain, sinks = _roles(cx, port)
     n = 0
+    async_write = port == 'js' and any(getattr(roles.methods(c_).get('write'), 'is_async', False) for c_ in list(chain) + list(sinks))
     for c in chain:
         for mname, fd in roles.methods(c).items():
             calls = _subwrite_calls(fd)
@@ -110,6 +111,9 @@ def rule_wr_prop(cx, rep, port):
                     st = st.parent
                 stmt = st.parent if not isinstance(st, ast.stmt) else st
                 stmt = _stmt_of(call)
+                if port == 'js' and async_write and not getattr(call, 'awaited', False) and not (isinstance(stmt, ast.Return) and stmt.value is call):
+                    rep.violated(key, call, 'write() of the downstream writer is asynchronous and its promise is used here without `await`: a promise is always truthy, so a refusal (TOP reached) never stops {}, and the writes are no longer serialised'.format('the emitting loop' if mname == 'finish' else 'the query'))
+                    continue
                 verdict = _verdict_use(call, stmt, fd, g)
                 if verdict == 'dropped':
                     if port == 'js' and '{}.{}'.format(c.name, mname) in JS_PROP_ALLOW:
@@ -160,6 +164,19 @@ def _verdict_use(call, stmt, fd, g):
         return 'false arm is `{}`'.format(node_text(first))
     if isinstance(stmt, ast.Expr) and stmt.value is call:
         return 'dropped'
+    # the call is the body of a callback applied to every element (map / forEach / a comprehension): all records are offered, the
+    # verdict of one write cannot stop the next - whatever is done with the collected results afterwards
+    q = par
+    while q is not None and q is not stmt:
+        if isinstance(q, ast.Lambda) or (isinstance(q, ast.FunctionDef) and q is not fd):
+            host = getattr(q, 'parent', None)
+            if isinstance(host, ast.Call) and isinstance(host.func, ast.Attribute) and host.func.attr in ('map', 'forEach', 'flatMap'):
+                return 'dropped'
+        if isinstance(q, (ast.ListComp, ast.GeneratorExp, ast.SetComp)) and isinstance(getattr(q, 'parent', None), ast.Call) and dotted(q.parent.func) not in ('all', 'any', 'next'):
+            return 'dropped'
+        if isinstance(q, ast.ListComp) and isinstance(getattr(q, 'parent', None), ast.Call) and dotted(q.parent.func) in ('all', 'any'):
+            return 'dropped'       # a list is built first: every write happens before all()/any() looks at the verdicts
+        q = getattr(q, 'parent', None)
     return 'call appears in `{}`'.format(node_text(stmt))
 
 
